@@ -93,7 +93,7 @@ theorem url_positions :
         isSrcElement el = true ∧ linkable el = true) := by decide
 
 example :
-    let p : Policy := { requireParseableURLs := true, allowURLSchemes := [(b!"https", [])] }
+    let p : Policy := { initialized := true, requireParseableURLs := true, allowURLSchemes := [(b!"https", [])] }
     p.validURL b!" HTTPS://Example.com/a b" = none ∧
     p.validURL b!" HTTPS://Example.com/a%20b " = some b!"https://Example.com/a%20b" ∧
     p.validURL b!"javascript:alert(1)" = none ∧ p.validURL b!"/rel" = none := by decide
